@@ -71,7 +71,7 @@ NUL_OPS = ["asc", "+h", "+h", "set", "+s", "+c", "sc", "sf", "ic", "pc", "ac", "
 QRY = ["at", "ioh", "ios", "ioc", "lih", "lis1", "lis", "cnh", "cns", "sws", "ews", "swh", "ewh", "swsi", "ewsi", "cmp", "cmpi",
        "eqi", "iosi", "lisi", "iohi", "lihi", "pns", "swn", "fl", "eqh", "eqhi", "swhi", "ewhi", "dist", "ncmp", "ncmpi"]
 PRO = ["cp", "cpp", "sub", "suba", "subu", "wis", "wps", "was", "wih", "wph", "wah", "pad", "lo", "up", "mx", "tr", "wrc", "wrs",
-       "args", "argi", "wsf", "wpf", "wosf", "wopf", "wosh", "woph", "wons", "pls", "wsfh", "wpfh", "wosfi", "wopfi", "woshi", "wophi", "wiw", "waw", "wpw", "ind", "esc"]
+       "args", "argi", "wsf", "wpf", "wosf", "wopf", "wosh", "woph", "wons", "pls", "wsfh", "wpfh", "wosfi", "wopfi", "woshi", "wophi", "wiw", "waw", "wpw", "ind", "esc", "argl", "argu", "argul", "argh", "argc", "argb"]
 
 
 def gen_op(rng, name, ln, alias=0.2):
@@ -145,6 +145,12 @@ def gen_op(rng, name, ln, alias=0.2):
     if name == "wrs":  return "wrs:%s:%s:%d:%d" % (A(needle(rng)), A(rbytes(rng, rng.choice([0, 1, 2, 3, 6]))), cnt(rng), rng.choice([0, 0, 0, 1, ln // 2, ln])), ln
     if name == "args": return "args:%s" % A(rbytes(rng, rng.choice([0, 1, 3, 8, 16]))), ln
     if name == "argi": return "argi:%d" % rng.choice([0, 1, -1, 42, -2147483648, 2147483647, 1000000]), ln
+    if name == "argl": return "argl:%d" % rng.choice([0, -1, 4611686018427387903, -4611686018427387903, 4294967296, 1234567890123]), ln
+    if name == "argu": return "argu:%d" % rng.choice([0, 1, 4294967295, 2147483648, 77]), ln
+    if name == "argul": return "argul:%d" % rng.choice([0, 4294967296, 4611686018427387903, 77]), ln
+    if name == "argh": return "argh:%d" % rng.choice([0, 1, -1, 32767, -32768]), ln
+    if name == "argc": return "argc:%d" % rng.choice([0, 65, 127, -128, -1]), ln
+    if name == "argb": return "argb:%d" % rng.randint(0, 1), ln
     if name in ("wsf", "wpf"): return "%s:%s" % (name, A(needle(rng))), ln
     if name == "wiw":  return "wiw:%d:%s:%s" % (idx(rng, ln), A(needle(rng) if rng.random() < 0.5 else rbytes(rng, grow)), rng.choice(["20", "20", "2c20", "", "61", "2d"])), ln
     if name in ("waw", "wpw"): return "%s:%s:%s" % (name, A(needle(rng) if rng.random() < 0.5 else rbytes(rng, grow)), rng.choice(["20", "20", "2c20", "", "61", "2d"])), ln
@@ -307,14 +313,19 @@ class CHECK(vlib.Check):
     harness = dict(name="str", src="str_h.cpp", san="asan", link_lib=True)
     modelled = ("util/String.h + util/String.cpp. Code-shaped (level 1: union of ShortStringData {_smallBuffer, _ssoFreeBytesLeft} and "
                 "LongStringData {_bigBuffer, _strlen, buffer length}; every memmove/memcpy, NUL write and SetLength): EnsureBufferSize, "
-                "GetNextBufferSize/NextPowerOfTwo (uint32 arithmetic), SetCstr, SetFromString, operator+= (String, const char*, char), "
-                "InsertChars/InsertCharsAux (Prepend/AppendChars), Clear, ClearAndFlush, Prealloc, ShrinkToFit, TruncateChars, TruncateToLength, "
-                "SwapContents/move, operator-= (3 forms), Reverse, Replace(char), copy/substring/prealloc constructors, Flatten/Unflatten, and the "
-                "producers composed from them as the code composes them (WithInsert/Append/Prepend, PaddedBy, case conversions, Trimmed, "
-                "WithReplacements, Arg, With(out)Suffix/Prefix, WithoutNumericSuffix, operator+). Effect level (storage decisions modelled, "
-                "scan by the level-0 function): Replace(String,String). Level 0 only (read-only; libc strstr/strcmp/strcasecmp underneath): "
-                "IndexOf/LastIndexOf/Contains/GetNumInstancesOf/StartsWith/EndsWith/Compare*/Equals* and their IgnoreCase forms, "
-                "ParseNumericSuffix, StartsWithNumber.")
+                "GetNextBufferSize/NextPowerOfTwo (uint32 arithmetic), SetCstr, SetFromString, operator= (2), operator+= (String, const char*, char), "
+                "operator<< (int, bool), ++/--, InsertChars/InsertCharsAux (Prepend/AppendChars), Clear, ClearAndFlush, Prealloc, ShrinkToFit, "
+                "TruncateChars, TruncateToLength, SwapContents/move, operator-= (3 forms), Reverse, Replace(char), operator[] write, copy/substring/"
+                "prealloc constructors, Flatten/Unflatten, and the producers composed from them as the code composes them: Substring (5 forms), "
+                "WithInsert/WithAppend/WithPrepend (String, const char*, char), PaddedBy, IndentedBy, ToLower/Upper/MixedCase, Trimmed, "
+                "WithReplacements (2), Arg(String/const char*/int), WithSuffix/WithPrefix (String, char), WithoutSuffix/WithoutPrefix (String, char) "
+                "and their IgnoreCase forms, WithoutNumericSuffix, WithInserted/Appended/PrependedWord, WithCharsEscaped, operator+. "
+                "Effect level (storage decisions modelled, scan by the level-0 function): Replace(String,String). Level 0 only (read-only; libc "
+                "strstr/strcmp/strcasecmp underneath): IndexOf/LastIndexOf/Contains/GetNumInstancesOf/StartsWith/EndsWith/CompareTo/Equals/"
+                "comparison operators and their IgnoreCase forms, CharAt, ParseNumericSuffix, StartsWithNumber, GetDistanceTo, "
+                "NumericAwareCompareTo(+IgnoreCase). Harness oracles only: HashCode/HashCode64/CalculateChecksum (equal across storage modes), "
+                "IsEmpty/HasChars/GetLastValidIndex/IsIndexValid/FlattenedSize. Not modelled: Replace/WithReplacements(Hashtable), Arg(float/double/"
+                "pointer/Point/Rect), operator<<(float), platform-specific conversions.")
     premises = ["memory allocation succeeds (muscleAlloc/muscleRealloc never return NULL in the model)",
                 "strings are NUL-free (F9: a String with an embedded NUL is outside the domain of the refinement theorems; the stream 'nul' corresponds such Strings against level 1 only, and C17_nul_string_truncates states the truncation); buffer requests up to 2^30 bytes (LIM)",
                 "memory safety and object lifetime of the C++ are observed by ASan/UBSan in the harness only",
